@@ -404,6 +404,10 @@ func runDeep(s DeepScript) (bool, string, *vt.Finding) {
 }
 
 func TestDeepNestingProbe(t *testing.T) {
+	// quick tier: one child (1 GB of stack) is enough; it runs on shard 0
+	if sh := os.Getenv("VT_SHARD"); !vt.Thorough() && sh != "" && sh != "0" && vt.ReplayPath() == "" {
+		t.Skip("deep-nesting probe runs on shard 0 only in the quick tier")
+	}
 	vt.Run(t, cDeep, vt.N(1, 12), genDeep, runDeep)
 }
 
